@@ -70,6 +70,83 @@ def compile_reads(repo, cls_qual, entry="cook", skip=("digest", "cook_check",
     return reads, seen
 
 
+def _value_reaches_update(loop):
+    """inside ``for attr in (...)``: the value read with getattr(self, attr)
+    (possibly through locals) is really part of what .update() receives --
+    a format string must reference the argument that carries it"""
+    import string
+    vals = set()
+    for n in ast.walk(loop):
+        if isinstance(n, ast.Assign) and any(
+                isinstance(c, ast.Call) and src(c.func) == "getattr"
+                for c in ast.walk(n.value)):
+            for t in n.targets:
+                if isinstance(t, ast.Name):
+                    vals.add(t.id)
+    # locals derived from the value (v = sorted(v) ...)
+    for _ in range(3):
+        for n in ast.walk(loop):
+            if isinstance(n, ast.Assign) and any(
+                    isinstance(x, ast.Name) and x.id in vals
+                    for x in ast.walk(n.value)):
+                for t in n.targets:
+                    if isinstance(t, ast.Name):
+                        vals.add(t.id)
+
+    def carries(e):
+        return any((isinstance(x, ast.Name) and x.id in vals) or (
+            isinstance(x, ast.Call) and src(x.func) == "getattr")
+            for x in ast.walk(e))
+    ok = False
+    for c in ast.walk(loop):
+        if not (isinstance(c, ast.Call) and src(c.func).endswith(".update")
+                and c.args):
+            continue
+        e = c.args[0]
+        if not carries(e):
+            continue
+        good = True
+        for f in ast.walk(e):
+            if isinstance(f, ast.Call) and isinstance(
+                    f.func, ast.Attribute) and f.func.attr == "format" and \
+                    isinstance(f.func.value, ast.Constant) and \
+                    isinstance(f.func.value.value, str):
+                used = set()
+                auto = 0
+                for lit, field, spec, conv in string.Formatter().parse(
+                        f.func.value.value):
+                    if field is None:
+                        continue
+                    head = field.split(".")[0].split("[")[0]
+                    if head == "":
+                        used.add(auto)
+                        auto += 1
+                    elif head.isdigit():
+                        used.add(int(head))
+                    else:
+                        used.add(head)
+                for i, a in enumerate(f.args):
+                    if carries(a) and i not in used:
+                        good = False
+                for k in f.keywords:
+                    if carries(k.value) and k.arg not in used:
+                        good = False
+            elif isinstance(f, ast.BinOp) and isinstance(f.op, ast.Mod) and \
+                    isinstance(f.left, ast.Constant) and \
+                    isinstance(f.left.value, str):
+                import re as _re
+                nspec = len([x for x in _re.findall(r"%(.)", f.left.value)
+                             if x != "%"])
+                args = f.right.elts if isinstance(f.right, ast.Tuple) \
+                    else [f.right]
+                for i, a in enumerate(args):
+                    if carries(a) and i >= nspec:
+                        good = False
+        if good:
+            ok = True
+    return ok
+
+
 def hashed_options(repo, cls_qual):
     ci = repo.cls(cls_qual)
     out = set()
@@ -87,7 +164,7 @@ def hashed_options(repo, cls_qual):
                 upd = any(isinstance(c, ast.Call) and
                           src(c.func).endswith(".update")
                           for c in ast.walk(n))
-                if uses and upd:
+                if uses and upd and _value_reaches_update(n):
                     out.update(e.value for e in n.iter.elts)
             elif isinstance(n, ast.Attribute) and \
                     isinstance(n.value, ast.Name) and n.value.id == "self" \
